@@ -10,8 +10,8 @@ Stop/Restart/Start at every position.  Oracle: uod.command_instances, the run lo
 tag, simulated flags, the callback trace after Restart — on those streams and on the full engine running
 generated methods stopped or restarted at a random tick.
 
-The model follows fixes/C11-uod-cancel-paths.diff; on the unchanged tree the check reports an instance that
-survives Stop.
+The model follows fixes/C11-uod-cancel-paths.diff (committed) and has both variants of
+fixes/C10-dispose-instances-on-stop.diff (Cfg.fixStop; the harness probes which one the code under test is).
 """
 from __future__ import annotations
 
@@ -25,12 +25,19 @@ META = dict(
                "finalized and no UOD request is queued or executing; the tick of the second phase reports the run's "
                "records to the on_stop listeners, clears all simulations, the run id and tracking, resets the "
                "interpreter and leaves an empty command manager (Restart: only its own request); Restart's third phase "
-               "begins a run under the next run id. Tied to the real Engine by differential execution of generated op "
-               "streams; the remaining clauses are checked by the oracle on the real engine.",
+               "begins a run under the next run id. With fixes/C10-dispose-instances-on-stop.diff (record invariant Rec): "
+               "every record of the run with a Started state has a Completed/Failed/Cancelled state when the run log is "
+               "reported, and uod.command_instances is empty after the second phase (no initialised and no never-initialised "
+               "instance). Tied to the real Engine by differential execution of generated op streams; the remaining clauses "
+               "are checked by the oracle on the real engine.",
     level_note="Model follows the code repaired by " + FIX + "; theorem asis_instance_survives_stop shows the unchanged "
-               "code violates the property. NOT a theorem: 'every started UOD command has a conclusive state in the "
-               "reported run log' — it is a decidable predicate evaluated by the model on every generated stream "
-               "(together with the other invariants) and checked on the implementation by the oracle. 'The method runs "
+               "code violates the property. The theorems started_commands_concluded / stop_leaves_no_instance / "
+               "restart_leaves_no_instance assume the repair fixes/C10-dispose-instances-on-stop.diff (proposed, not in "
+               "the code yet): as the code is, a request with rejected arguments leaves a never-initialised instance "
+               "behind that survives Stop (asis_uninitialised_instance_survives_stop; known finding), and a command "
+               "from the user's command buttons between the two phases of Stop/Restart survives the stop (outside the "
+               "model: UOD requests are interpreter-sourced there; engine-level oracle, known findings "
+               "*:started-while-stopping). 'The method runs "
                "again from its first line' is the interpreter reset (counted in the model, checked on the engine by "
                "comparing the commands after Restart with a fresh run). Run ids are ordinals of a counter in the model "
                "(uuid4 in the code). Known finding: for command nodes that run several times (Alarm bodies) the run log "
@@ -40,7 +47,9 @@ META = dict(
 )
 MODULE = "OPM.Properties.C10"
 REQUIRED = ["OPM.C10.nothing_running_while_stopping", "OPM.C10.stop_completes", "OPM.C10.restart_ends_run",
-            "OPM.C10.restart_begins_run", "OPM.C10.asis_instance_survives_stop"]
+            "OPM.C10.restart_begins_run", "OPM.C10.asis_instance_survives_stop",
+            "OPM.C10.started_commands_concluded", "OPM.C10.stop_leaves_no_instance",
+            "OPM.C10.restart_leaves_no_instance", "OPM.C10.asis_uninitialised_instance_survives_stop"]
 
 
 def engine_oracle(case, res):
@@ -53,20 +62,26 @@ def run(ctx: Check) -> int:
     ctx.prove(MODULE, REQUIRED)
     ctx.rule = ("Op streams for the command manager (see C11) with the profile 'c10': long and overlapping commands that "
                 "never fail, Simulate, Stop / Restart / Start at random positions (also in the same tick as new requests, "
-                "before and after them in the queue); all sequences of length <= 3/4 over a 9-op alphabet incl. Stop; "
+                "before and after them in the queue); all sequences of length <= 3/4 over a 10-op alphabet (incl. a request with rejected arguments) incl. Stop; "
                 "malformed stream. Non-trivial = a run ends while commands are in flight. Engine level: generated "
                 "methods with long/overlapping UOD commands from the main sequence and Watch/Alarm bodies, timed "
-                "Pause/Hold, Simulate, injected snippets; Stop or Restart at a random tick.")
+                "Pause/Hold, Simulate (also to the value the tag has), rejected arguments, injected snippets; Stop or "
+                "Restart at a random tick, also out of a user Pause/Hold or an error pause; now and then a UOD command "
+                "from the user's command buttons (any tick, in particular between the two phases of Stop/Restart).")
     streams(ctx, ["c10", "c10", "mixed"], ctx.n(500, 12000), ctx.n(3, 4), ctx.n(60, 1500), [oracle_c10], "cmdmgr")
     engine_monitor(ctx, "c10", ctx.n(500, 12000), engine_oracle)
     ctx.exhaustive = False
-    ctx.extra["exhaustive_scope"] = f"all op sequences of length {ctx.n(3, 4)} over 9 ops (incl. Stop) after Start"
+    ctx.extra["exhaustive_scope"] = f"all op sequences of length {ctx.n(3, 4)} over 10 ops (incl. Stop) after Start"
     ctx.extra["fix"] = FIX
-    ctx.assumptions = ["UOD command requests come from the interpreter (method or injected code), one node per request",
-                       "command arguments parse", "at most one of Start/Stop/Restart in flight",
+    ctx.extra["proposed_fix"] = "fixes/C10-dispose-instances-on-stop.diff"
+    from harness.cmdmgr import stop_fix_present
+    ctx.extra["code_under_test_has_proposed_fix"] = stop_fix_present()
+    ctx.assumptions = ["model: UOD command requests come from the interpreter (method or injected code), one node per "
+                       "request (user-sourced UOD commands: engine-level oracle only)",
+                       "at most one of Start/Stop/Restart in flight",
                        "the paused flag of the run state is an input of the model (Pause/Unpause: model M1); an exception "
                        "in the command phase sets it, Start/Stop/Restart clear it",
-                       "no UOD request arrives while the engine is stopping (the interpreter does not tick then)"]
+                       "model: no UOD request arrives while the engine is stopping (the interpreter does not tick then)"]
     return ctx.finish()
 
 
